@@ -1,5 +1,6 @@
 """C14 - operator queue mutations touch exactly what they name (store level)."""
 from checks import queuefam as q
+from checks import c14api
 
 RULE = ("MC: QueueMC (operator + filter families over all message states) with OperatorExact (changed = selected, only from the allowed "
         "states, lease voided, count = |changed|) and Conservation; GEN: every edge of the bounded graph (by-id and by-filter forms, preview); "
@@ -21,9 +22,15 @@ def run(ctx):
         plan = {"mc": [("oper", c, PROPS, dict(ids=3, family=FAM, horizon=20, maxep=1, maxins=3, ticks=(10,), delays=(0,), ttls=(10, 30), timeout=3000))],
                 "gen": [("oper", c, dict(ids=3, family=FAM, horizon=10, maxep=1, maxins=3, pick="insertion", ticks=(10,), delays=(0,), ttls=(30,)), 1)],
                 "drv": [("oper", "operator", 3000, 80, dict(big_every=25))]}
-    q.run_plan(ctx, plan, RULE, assumptions=["sequential histories only: the by-filter forms are select-then-update in SQLite and the property does not quantify over schedules",
+    c14api.l1_part(ctx)   # the same operations THROUGH the Admin HTTP API and the MCP tools (admin-proxy mode)
+    q.run_plan(ctx, plan, RULE + " " + c14api.RULE_L1, assumptions=["sequential histories only: the by-filter forms are select-then-update in SQLite and the property does not quantify over schedules",
                                              "admin HTTP / MCP argument parsing (parseManageIDs, parseMessageManageFilter) is the L1 part"])
 
 
 def replay(ctx, path):
-    q.replay(ctx, path)
+    import json
+    obj = json.load(open(path))
+    if obj.get("layer") == c14api.MARK:
+        c14api.replay(ctx, obj)
+    else:
+        q.replay(ctx, path)
